@@ -52,6 +52,21 @@ def run_cli(argv: List[str], stdin_text: str = "") -> Tuple[Any, str, str]:
     return status, out.getvalue(), err.getvalue()
 
 
+_CLI_ZYGOTE = None
+
+
+def run_cli_fresh(argv: List[str], stdin_text: str = "") -> Tuple[Any, str, str]:
+    """The same run in a process of its own (forked from a process that imported the CLI and never ran it): what the run gives ALONE, whatever earlier
+    runs may have left in this process."""
+    global _CLI_ZYGOTE
+    from vf import fresh
+
+    if _CLI_ZYGOTE is None:
+        fresh.warm_cache()
+        _CLI_ZYGOTE = fresh.CliZygote()
+    return _CLI_ZYGOTE.run(argv, stdin_text)
+
+
 # --- --arg typed bindings: (cli type name, text, CEL kind, payload) --------------------------------------------
 
 
@@ -165,10 +180,11 @@ def check_null_input(run: common.Run, expr: str, args: List[Tuple], report) -> N
 
 def doc_strategy():
     obj = st.fixed_dictionaries({}, optional={"name": st.one_of(st.sampled_from(["a", "b", ""]), st.integers(-3, 3), st.none(), st.booleans()),
-                                              "n": st.one_of(st.integers(-2, 5), st.sampled_from(["x", 0, 1.5])), "l": st.lists(st.integers(0, 3), max_size=3),
+                                              "n": st.one_of(st.integers(-2, 5), st.sampled_from(["x", 0, 1.5, 2.0, 1.0, 0.0, -0.0, 5.0, True])),
+                                              "l": st.lists(st.one_of(st.integers(0, 3), st.sampled_from([1.0, 2.0, 0.0])), max_size=3),
                                               "m": st.fixed_dictionaries({}, optional={"k": st.integers(0, 2)})})
     good = obj.map(json.dumps)
-    nonobj = st.sampled_from(["5", "[1, 2]", "\"str\"", "null", "true", "1.5"])
+    nonobj = st.sampled_from(["5", "5.0", "[1, 2]", "[1, 1.0, true]", "\"str\"", "null", "true", "1.5", "-0.0", "0"])
     bad = st.sampled_from(["{", "{'a': 1}", "nope", "", "  ", "{\"a\": }", "[1,", "{\"name\": 1} trailing"])
     return st.one_of(good, good, good, nonobj, bad)
 
@@ -190,7 +206,10 @@ def check_stream(run: common.Run, expr: str, docs: List[str], b: bool, mode: str
     stream = "".join(d + "\n" for d in docs)
     run.tick()
     status, out, err = run_cli(argv, stream)
-    singles = [run_cli(argv, d + "\n") for d in docs]
+    singles = [run_cli_fresh(argv, d + "\n") for d in docs]  # each document alone, in a process of its own
+    fresh_stream = run_cli_fresh(argv, stream)
+    if (status, out) != fresh_stream[:2]:
+        report("stream-result-depends-on-earlier-runs-in-the-process", {"mode": "stream", "argv": argv, "docs": docs}, f"{argv}: in this process {(status, out[:120])}, in a fresh process {(fresh_stream[0], fresh_stream[1][:120])}")
     run.tick(len(docs))
     case = {"mode": "stream", "argv": argv, "docs": docs}
     bad = [i for i, d in enumerate(docs) if _malformed(d)]
@@ -320,7 +339,8 @@ def main(run: common.Run) -> None:
     run.assumptions = [
         "main(argv) is called in-process (SystemExit / exceptions out of main are recorded as such); the thorough tier adds real subprocesses for a fixed sample",
         "without -b an evaluation error's status is not asserted (the statement gives 2 only under -b); with -b only the status is asserted",
-        "NDJSON is judged metamorphically (stream vs its one-document runs), so nothing beyond the statement is assumed about per-document status codes",
+        "NDJSON is judged metamorphically (stream vs its one-document runs, each of those in a process of its own forked from a process that imported the CLI and never ran it; the stream "
+        "itself both in the check's process and in such a fresh one), so nothing beyond the statement is assumed about per-document status codes",
         "expressions do not start with '-' (argparse would read them as options)",
     ]
     for p in common.committed_replays(run.pid):
@@ -330,9 +350,23 @@ def main(run: common.Run) -> None:
         run.event("replayed")
     for e in NULL_INPUT_EXPRS:
         check_null_input(run, e, [], run.fail)
-    if run.tier == "quick":
+    try:
+        if run.tier == "quick":
+            campaign(run)
+        else:
+            subprocess_sample(run, run.fail)
+            for s in common.run_sharded(run.pid, run.tier, run.seed, _shard, 16, RULE):
+                run.merge(s)
+    finally:
+        if _CLI_ZYGOTE is not None:
+            _CLI_ZYGOTE.close()
+
+
+def _shard(run: common.Run) -> None:
+    global _CLI_ZYGOTE
+    _CLI_ZYGOTE = None  # each shard has its own zygote
+    try:
         campaign(run)
-    else:
-        subprocess_sample(run, run.fail)
-        for s in common.run_sharded(run.pid, run.tier, run.seed, campaign, 16, RULE):
-            run.merge(s)
+    finally:
+        if _CLI_ZYGOTE is not None:
+            _CLI_ZYGOTE.close()
